@@ -87,7 +87,7 @@ theorem execT_entries (w : Weights) (P : Prims) : ∀ (c : Code) (env : Env),
           · rfl
         · exact guardPushT_entries w P env none _ push _
       | _ => rfl
-  | .structNamed _ v path fields rest body push, env => by
+  | .structNamed _ v path fields _ rest body push, env => by
     simp only [execT, exec]
     cases evalV P env v with
     | none => rfl
@@ -307,7 +307,7 @@ theorem execT_pass (w : Weights) (P : Prims) : ∀ (c : Code) (env : Env) (t : T
         · have := guardPushT_pass h he
           simp at this
       | _ => simp [hx] at h
-  | .structNamed _ v path fields rest body push, env, t, h, he => by
+  | .structNamed _ v path fields _ rest body push, env, t, h, he => by
     simp only [execT] at h
     cases hv : evalV P env v with
     | none => simp [hv] at h
@@ -680,7 +680,7 @@ theorem execT_debugs_le (w : Weights) (P : Prims) : ∀ (c : Code) (env : Env) (
           · simp at h
         · exact guardPushT_debugs h
       | _ => simp [hx] at h
-  | .structNamed _ v path fields rest body push, env, t, h => by
+  | .structNamed _ v path fields _ rest body push, env, t, h => by
     simp only [execT] at h
     cases hv : evalV P env v with
     | none => simp [hv] at h
